@@ -169,7 +169,11 @@ func NewFunction(fn *compiler.Function) *Function {
 	var defaultsCount int
 	for i := 0; i < fn.DefaultsCount(); i++ {
 		value := fn.Default(i)
-		if value != nil {
+		if _, ok := value.(compiler.NilDefault); ok {
+			// The parameter has a default and that default is nil
+			defaultsCount++
+			defaults = append(defaults, Nil)
+		} else if value != nil {
 			defaultsCount++
 			defaults = append(defaults, FromGoType(value))
 		} else {
